@@ -139,7 +139,8 @@ contract(WF, "RampWaveform.__init__", props=("C16",),
 contract(WF, "ConstantWaveform.change_duration", props=("C16", "C01"),
          params={"self": ("ref", "ConstantWaveform"), "new_duration": "int"}, result=("ref", "ConstantWaveform"),
          raises={"ValueError": lambda c: T(c.new_duration) <= 0},
-         ensures=lambda c: [("new-duration-same-value", z3.And(DUR(T(c.res)) == T(c.new_duration), CVAL(T(c.res)) == CVAL(T(c.self))))])
+         ensures=lambda c: [("new-duration-same-value", z3.And(DUR(T(c.res)) == T(c.new_duration), CVAL(T(c.res)) == CVAL(T(c.self)))),
+                            ("still-a-constant-waveform", isinstance_term(T(c.res), "ConstantWaveform"))])
 
 contract(WF, "RampWaveform.change_duration", props=("C16", "C01"),
          params={"self": ("ref", "RampWaveform"), "new_duration": "int"}, result=("ref", "RampWaveform"),
